@@ -49,6 +49,21 @@ CHECKS = {
    text="For every combination of small/large strings (0,1,4095,4096,4097,8192,12288) in Base/BaseResp fields and map entries, FastWriteNocopy is run with a recording direct writer and with nil; TLC splices the recorded (piece, remainCap) pairs into the linear buffer at offset B - remainCap and requires equality with the copying encoding, remainCap >= len(piece), exactly the strings >= threshold written directly, and equal advertised lengths.",
    note="Trusted: TLC, recording NocopyWriter, segment projection. Exhaustive over the length alphabet for Base's three strings (thorough) / a 2/3 subsample (quick).",
    design="6 C15"),
+ "C03": dict(
+   technique="TLC-evaluated C03Rule on recorded outcomes of every buffer-based entry point under grammar-directed hostile inputs; Go monitors (recover, guard pages) make panics/faults observable; exhaustive raw sweep",
+   text="Hostile inputs derived from the TLA+ grammar generators (every cut point, structural bytes x boundary values, size fields x hostile sizes, foreign and >=0x80 type bytes, nesting to 70) are fed to the five skippers, the scalar/header/message readers (buffer + stream), the three FastRead structs, FastUnmarshal, UnmarshalFastMsg, ConvertUnknownFields/GetUnknownFields and ttheader decode; every outcome is an event and TLC evaluates C03Rule (no panic/fault; success => 0 <= n <= len). In addition every byte string of length <= 2 over the full alphabet goes through every entry point (and all 256 type bytes for the allocation-free skippers); thorough adds all 2^24 three-byte strings x 15 types.",
+   note="Trusted: TLC, recover()/guard-page monitors (PROT_NONE pages on both sides of inputs <= 128 KiB). For the raw sweep C03Rule is the whole expectation, so it is applied in Go and only failures become replay files. Entry points that allocate the declared size are fed declared sizes <= 1 MiB / 65536 entries (as the property states).",
+   design="6 C03"),
+ "C13": dict(
+   technique="TLA+ tree/bytes conversion spec (UnknownFields) checked by TLC + TLC-judged traces of Convert/Get/Write/Length",
+   text="TLC checks both round trips, TreeLen and tag-meaningfulness over all well-typed trees within bounds (>1000 trees: every type at top level and first container level, two fields after one another in nested structs). Random field sequences from the typed generator and random Go trees go through ConvertUnknownFields, GetUnknownFields (reflection), WriteUnknownFields and UnknownFieldsLength; TLC compares every tree field by field (ID, Type, KeyType, ValType, Value) with ToTree and every output with ToBytes.",
+   note="Trusted: TLC, tree projection to JSON, content-verified string segments. Doubles are compared by bit pattern. Conversion allocates the declared element count: inputs declaring > 65536 elements are not fed.",
+   design="6 C13, App. C"),
+ "C17": dict(
+   technique="TLA+ cause -> type-id mapping (ThriftSkip.TypeIdOf, ThriftWire.TypeIds) evaluated by TLC on recorded failures",
+   text="For every failing thrift.Binary call (skip, scalar/string/header readers, message-begin) on the C03/C08 hostile inputs TLC derives the admissible cause set from the reference grammar/decoder and requires the ProtocolException type id to name it (invalid data for truncation/unknown types, negative size, bad version, depth limit); for stream readers/skippers whose only admissible cause is truncation it requires errors.Is(err, source error) for io.EOF, io.ErrUnexpectedEOF and a custom injected error, delivered with or after the last data.",
+   note="Trusted: TLC, errors.As/Is projections in the harness. A negative name length inside message-begin may be reported as invalid data or negative size (both admitted).",
+   design="6 C17"),
 }
 NOT_YET = "check not built yet in this revision of /verif (work in progress; see DESIGN.md section 6 for the plan)"
 
